@@ -3,6 +3,7 @@ import Helios.Model.Breaker
 import Helios.Model.LB
 import Helios.Model.Admin
 import Helios.Model.Http
+import Helios.Model.Proxy
 import Helios.Model.Registry
 import Helios.Model.Ids
 import Helios.Model.Config
@@ -31,6 +32,8 @@ structure DState where
   idRl : Option Nat := none       -- tokens left (none = limiter off)
   idEjected : Bool := false
   pool : Option Pool.State := none
+  pxIds : Bool × Bool := (false, false)     -- request-id / trace features of the `px` front end
+  pxBase : String := ""                      -- backend base path
 
 def words (line : String) : List String :=
   (line.splitOn " ").filter (fun w => w != "")
@@ -498,9 +501,85 @@ def poolStep (s : DState) : List String → DState × String
       | _, _ => (s, "bad-op")
   | _ => (s, "bad-op")
 
+
+/-! ### C01: `px` exchanges, directly or through Helios -/
+
+/-- stable insertion by key -/
+def insertByKey (x : String × String) : List (String × String) → List (String × String)
+  | [] => [x]
+  | y :: ys => if x.1 < y.1 then x :: y :: ys else y :: insertByKey x ys
+
+def sortByKey (l : List (String × String)) : List (String × String) :=
+  l.foldl (fun acc x => insertByKey x acc) []
+
+def stripIdx (k : String) : String := (k.splitOn "#").headD k
+
+/-- canonical `k=v&k=v` of the X-V-* headers -/
+def xvCanon (h : List (String × String)) : String :=
+  let xs := (sortByKey (h.map (fun kv => (stripIdx kv.1, kv.2)))).filter (fun kv => kv.1.startsWith "X-V-")
+  if xs.isEmpty then "-" else "&".intercalate (xs.map (fun kv => escStr kv.1 ++ "=" ++ escStr kv.2))
+
+/-- backend script: `sh:K:V`, `ah:K:V` (Add: encoded as a distinct key `K#n`), `wh:c`, `w:n:s`, `fl`, `sl:ms` -/
+def parsePxOps (toks : List String) : Option (List Http.Op) :=
+  let rec go : List String → Nat → Option (List Http.Op)
+    | [], _ => some []
+    | t :: rest, n =>
+      match t.splitOn ":" with
+      | ["sl", _] => go rest n
+      | ["ah", k, v] => (go rest (n + 1)).map (fun r => Http.Op.setH (canonKey k ++ "#" ++ toString n) (bytesToString (unesc v)) :: r)
+      | ["sh", k, v] => (go rest n).map (fun r => Http.Op.setH (canonKey k) (bytesToString (unesc v)) :: r)
+      | _ => match parseRwOp t with
+        | some o => (go rest n).map (fun r => o :: r)
+        | none => none
+  go toks 0
+
+def parsePxHdrs (tok : String) : List (String × String) :=
+  if tok == "-" then [] else
+  (tok.splitOn "&").filterMap (fun kv =>
+    match kv.splitOn "=" with
+    | k :: rest => some (canonKey (bytesToString (unesc k)), bytesToString (unesc ("=".intercalate rest)))
+    | [] => none)
+
+def trimOWSs (s : String) : String := bytesToString (trimOWS s.toUTF8.toList)
+
+def pxStep (s : DState) : List String → DState × String
+  | ["new", _strategy, ids, base] =>
+    match ids.toList with
+    | [a, b] => ({ s with pxIds := (a == '1', b == '1'), pxBase := if base == "-" then "" else bytesToString (unesc base) }, "ok")
+    | _ => (s, "bad-op")
+  | ["close"] => (s, "ok")
+  | ["x", mode, method, target, hdrs, reqlen, framing, script] =>
+    match parsePxOps (script.splitOn ";"), reqlen.toNat? with
+    | some ops, some rl =>
+      let head := method == "HEAD"
+      let b := Http.Base.run { head := head } ops
+      let sent := parsePxHdrs hdrs
+      let via := mode == "via"
+      let cfg : Proxy.IdCfg := { reqOn := via && s.pxIds.1, traceOn := via && s.pxIds.2 }
+      let supplied := fun (name : String) => trimOWSs (((sent.find? (·.1 == name)).map (·.2)).getD "")
+      let ids : Proxy.Ids := Proxy.idsFor cfg { req := "GEN", trace := "GEN" }
+        [(cfg.reqName, supplied cfg.reqName), (cfg.traceName, supplied cfg.traceName)]
+      let c := if via then Proxy.via cfg ids b else b
+      let v := c.view
+      let rawChunks := v.pieces.filterMap (fun p => match p with | .raw ch => some ch | _ => none)
+      let body : Http.Body := rawChunks
+      let idc := fun (on : Bool) (name : String) (value : String) =>
+        if !on then "off"
+        else if v.hdr.get name != value then "MISSING-resp"
+        else if Proxy.blank (supplied name) then "gen" else "sup"
+      let xff := (sent.filter (·.1 == "X-Forwarded-For")).map (·.2)
+      let fwd := if via then ", ".intercalate (xff ++ ["127.0.0.1"]) else ",".intercalate xff
+      let uri := if s.pxBase == "" then escStr target else "*"
+      let reqBody : Http.Body := if rl == 0 then [] else [(rl, 7)]
+      let breq := s!"{method}|{uri}|{xvCanon sent}|{if framing == "chunked" then "chunked" else "cl"}|{rl}:{reqBody.hash.toNat}|fwd:{if fwd == "" then "-" else escStr fwd}"
+      (s, s!"px status={v.status} xv={xvCanon v.hdr} body={body.len}:{body.hash.toNat} short={if v.short then 1 else 0} interim={",".intercalate ("-" :: c.interim.map toString)} ids={idc cfg.reqOn cfg.reqName ids.req}/{idc cfg.traceOn cfg.traceName ids.trace} breq={breq}")
+    | _, _ => (s, "bad-op")
+  | _ => (s, "bad-op")
+
 def step (s : DState) (line : String) : DState × String :=
   match words line with
   | "rw" :: rest => (s, rwStep rest)
+  | "px" :: rest => pxStep s rest
   | "pool" :: rest => poolStep s rest
   | ["stop", _nb, _pm, _du, _st, pool] =>
     -- what the protocol theorems (Helios.Shut.stop_safe / stop_no_deadlock) promise for every schedule
